@@ -46,11 +46,49 @@ IPCHARS = set(b".:0123456789abcdefABCDEF")
 A_LIMIT = 420      # longest input run through every prefix
 
 
+# initialiser expressions of function-local constants of Parser.cc: (name, kind, regex, how to turn the match into an expression)
+GEN_EXPRS = [
+    ("ipChars", "set", r"static\s+const\s+auto\s+ipChars\s*=\s*(.*?);", "%s"),
+    ("addressFamilies", "set", r"static\s+const\s+CharacterSet\s+addressFamilies\s*\((.*?)\);", "CharacterSet(%s)"),
+    ("maxHeaderLength", "num", r"static\s+const\s+SBuf::size_type\s+maxHeaderLength\s*=\s*(.*?);", "%s"),
+    ("maxInteriorLength", "num", r"static\s+const\s+auto\s+maxInteriorLength\s*=\s*(.*?);", "%s"),
+    ("interiorChars", "set", r"static\s+const\s+auto\s+interiorChars\s*=\s*(.*?);", "%s"),
+    ("protoTcp", "bytes", r"static\s+const\s+SBuf\s+protoTcp\s*\((.*?)\);", "SBuf(%s)"),
+    ("protoUnknown", "bytes", r"static\s+const\s+SBuf\s+protoUnknown\s*\((.*?)\);", "SBuf(%s)"),
+    ("portMax", "num", r"if\s*\(port\s*>\s*(.*?)\)\s*\n", "%s"),
+    ("unixAddrLen", "num", r"tok\.skip\((\d+),\s*\"unix_addr\"\)", "%s"),
+]
+
+
+def gen_inc(stage):
+    """c38_gen.inc: a function that evaluates, inside namespace ProxyProtocol::One of the staged Parser.cc, the initialiser
+    expressions cut out of the staged source text and prints their values"""
+    text = stage.read("src/proxyp/Parser.cc")
+    body = []
+    for name, kind, rx, wrap in GEN_EXPRS:
+        m = re.search(rx, text, re.S)
+        if not m:
+            body.append('    printf("%s missing\\n");' % name)
+            continue
+        expr = wrap % " ".join(m.group(1).split())
+        typ = {"set": "const CharacterSet", "num": "const long long", "bytes": "const SBuf"}[kind]
+        fn = {"set": "printSet", "num": "printNum", "bytes": "printBytes"}[kind]
+        init = "static_cast<long long>(%s)" % expr if kind == "num" else expr
+        body.append('    %s %s = %s; %s("%s", %s);' % (typ, name, init, fn, name, name))
+    src = ("// GENERATED by props/C38.py from src/proxyp/Parser.cc\nnamespace ProxyProtocol { namespace One {\n"
+           "static void DumpGenerated() {\n%s\n}\n} }\n" % "\n".join(body))
+    path = os.path.join(stage.work, "c38_gen.inc")
+    with open(path, "w") as f:
+        f.write(src)
+    return path
+
+
 def build_exe(stage):
     if "c38" in getattr(stage, "built", {}):
         return stage.built["c38"]
-    objs = [stage.compile(os.path.join(VERIF, "harness", "c38.cc")),
-            stage.compile("src/proxyp/Parser.cc"),
+    gen_inc(stage)
+    # harness/c38.cc #includes proxyp/Parser.cc (the code under test is part of the sanitizer-built harness unit)
+    objs = [stage.compile(os.path.join(VERIF, "harness", "c38.cc"), extra=["-I", stage.work]),
             stage.compile("src/proxyp/Header.cc"),
             stage.compile("src/proxyp/Elements.cc"),
             stage.compile("src/parser/BinaryTokenizer.cc")]
